@@ -39,6 +39,23 @@ impl Duration {
     fn from_secs(s: u64) -> (r: Duration) ensures r.d() == s * 1_000_000_000 { unimplemented!() }
     #[verifier::external_body]
     fn as_secs(&self) -> (r: u64) ensures r == self.d() / 1_000_000_000 { unimplemented!() }
+    #[verifier::external_body]
+    fn saturating_sub(self, rhs: Duration) -> (r: Duration)
+        ensures r.d() == (if self.d() >= rhs.d() { self.d() - rhs.d() } else { 0 })
+    { unimplemented!() }
+}
+// `Duration - Duration` panics in std when the result would be negative: that is its precondition here
+impl std::ops::Sub<Duration> for Duration {
+    type Output = Duration;
+    #[verifier::external_body]
+    fn sub(self, rhs: Duration) -> (r: Duration)
+        ensures r.d() == self.d() - rhs.d()
+    { unimplemented!() }
+}
+impl vstd::std_specs::ops::SubSpecImpl<Duration> for Duration {
+    open spec fn obeys_sub_spec() -> bool { false }
+    open spec fn sub_req(self, rhs: Duration) -> bool { self.d() >= rhs.d() }
+    uninterp spec fn sub_spec(self, rhs: Duration) -> Duration;
 }
 
 
